@@ -13,6 +13,42 @@ NA = {
 PENDING = "check not built yet (planned, DESIGN.md section 6)"
 
 CHECKS = {
+    "C04": dict(
+        category="other",
+        text="Contracts on constant data, decided exhaustively on every run: for every statement row that carries its own "
+             "declarations (arg_decl) the C parameter and the Fortran dummy are interoperable by an independent oracle "
+             "written from ISO/IEC 1539-1 clause 18; every buf_args member is one the argument-list builders accept; the "
+             "typemap table's f_kind/f_type/f_cast name the ISO_C_BINDING kind of c_type; the paired C struct / Fortran "
+             "bind(C) type of the capsule and array descriptors agree member by member; SH_TYPE_* tables agree name by name "
+             "and value by value; every bind(C) helper interface names a defined C function with the same arity and "
+             "interoperable parameters. Evaluated on the tables the real modules build for language c and c++.",
+        design_ref="6/C04, Appendix B",
+        note="Not covered: the per-argument agreement produced by build_proto_list x build_arg_list_interface (relational "
+             "contract planned), function result types, user overrides. Trusted: the oracle transcription, small text parsers.",
+        technique="exhaustive evaluation of table invariants (contracts over constant tables) against an interoperability oracle",
+    ),
+    "C05": dict(
+        category="other",
+        text="Necessary conditions only. Helper closure over the statement and helper tables, decided exhaustively on every "
+             "run for language c and c++: every Shroud* function a row's code templates call is defined by a helper the row "
+             "lists or one reachable through dependent_helpers; every helper named exists; dependent_helpers is acyclic. "
+             "Found and repaired a genuine link-time defect (four row families called helpers nothing emitted).",
+        design_ref="6/C05",
+        note="Not covered: acceptance of whole emitted files by gcc/g++/gfortran, include-guard balance (planned unit), "
+             "Python/Lua tables.",
+        technique="exhaustive evaluation of table invariants (contracts over constant tables)",
+    ),
+    "C10": dict(
+        category="other",
+        text="Call-site contracts over the statement tables, decided exhaustively on every run: every ShroudStrCopy / "
+             "ShroudStrBlankFill / ShroudStrAlloc / ShroudLenTrim / std::string(ptr,n) / memset call in a row passes the "
+             "destination, the full capacity (len in buf_args or the CFI elem_len) and the trimmed length (len_trim in "
+             "buf_args or computed over the capacity) in the roles the helper contracts need; input rows use the trimmed "
+             "length, output rows the declared length.",
+        design_ref="6/C10",
+        note="Not covered yet: the C helper bodies themselves (mini-C front end planned), Fortran-side trim/len actuals.",
+        technique="exhaustive evaluation of table invariants (call-site contracts over constant tables)",
+    ),
     "C06": dict(
         category="proof",
         text="Deductive, generator-level core only: the destructor (capsule) table of wrapc.Wrapc as a data structure "
@@ -80,7 +116,7 @@ def main():
                 "thorough_cmd": "./check %s --tier thorough" % p,
                 "evidence_file": "evidence/%s.json" % p,
                 "replay_cmd_template": "./check %s --replay {path}" % p,
-                "engine": "pyvc",
+                "engine": "pyvc" if c["category"] == "proof" else "tables",
                 "level_claimed": {"category": c["category"], "text": c["text"], "design_ref": c["design_ref"]},
                 "level_note": c["note"],
                 "technique": c["technique"],
@@ -98,6 +134,8 @@ def main():
             "add_only": True,
         },
         "engines": [
+            {"name": "tables", "path": "tables/", "serves_properties": ["C04", "C05", "C06", "C10"],
+             "kind_free_text": "table-invariant evaluator: closed representation invariants over the constant tables the real modules build, decided exhaustively on every run"},
             {"name": "pyvc", "path": "pyvc/", "serves_properties": sorted(CHECKS),
              "kind_free_text": "verification-condition generator over the real Python AST (path splitting, loop invariants, ghost code by structural anchors, folds) with z3 and cvc5 back ends; run-time monitors only for counterexample replay and labelled bounded stand-ins"},
         ],
